@@ -9,6 +9,7 @@ import (
 	"time"
 
 	"bufio"
+	"encoding/binary"
 	"io"
 	"io/ioutil"
 )
@@ -24,8 +25,11 @@ type Connection struct {
 	connection net.Conn
 	context    Context
 
-	// Used to buffer reads
-	readBuffer io.Reader
+	// Decrypted bytes of the last frame which were not read yet
+	readBuffer *bytes.Reader
+
+	// Buffers encrypted bytes read from the connection across calls
+	encrypted *bufio.Reader
 }
 
 // NewConnection returns a hap connection.
@@ -65,26 +69,51 @@ func (con *Connection) EncryptedWrite(b []byte) (int, error) {
 // DecryptedRead reads and decrypts bytes from the connection.
 // The method returns the number of read bytes and an error when reading failed.
 func (con *Connection) DecryptedRead(b []byte) (int, error) {
-	if con.readBuffer == nil {
-		buffered := bufio.NewReader(con.connection)
-		decrypted, err := con.getDecrypter().Decrypt(buffered)
-		if err != nil {
-			if neterr, ok := err.(net.Error); ok && neterr.Timeout() {
-				// Ignore timeout error #77
-			} else {
-				log.Debug.Println("Decryption failed:", err)
-				err = con.connection.Close()
-			}
-			return 0, err
+	if len(b) == 0 {
+		return 0, nil
+	}
+
+	for con.readBuffer == nil {
+		if con.encrypted == nil {
+			// The buffered reader is kept to not lose bytes which were read ahead
+			con.encrypted = bufio.NewReaderSize(con.connection, 2*(crypto.PacketLengthMax+18))
 		}
 
-		con.readBuffer = decrypted
+		// Wait until one frame [length (2 bytes)] [data] [auth (16 bytes)] is available.
+		// Buffered bytes are kept when the read times out.
+		header, err := con.encrypted.Peek(2)
+		if err == nil {
+			length := int(binary.LittleEndian.Uint16(header))
+			_, err = con.encrypted.Peek(2 + length + 16)
+			if err == nil {
+				frame := make([]byte, 2+length+16)
+				io.ReadFull(con.encrypted, frame)
+				var decrypted io.Reader
+				decrypted, err = con.getDecrypter().Decrypt(bytes.NewReader(frame))
+				if err == nil {
+					if plain, _ := ioutil.ReadAll(decrypted); len(plain) > 0 {
+						con.readBuffer = bytes.NewReader(plain)
+					}
+					continue
+				}
+			}
+		}
+
+		if neterr, ok := err.(net.Error); ok && neterr.Timeout() {
+			// Ignore timeout error #77
+		} else {
+			log.Debug.Println("Decryption failed:", err)
+			con.connection.Close()
+		}
+		return 0, err
 	}
 
 	n, err := con.readBuffer.Read(b)
-
-	if n < len(b) || err == io.EOF {
+	if con.readBuffer.Len() == 0 {
 		con.readBuffer = nil
+	}
+	if err == io.EOF {
+		err = nil
 	}
 
 	return n, err
